@@ -20,10 +20,13 @@ Local Open Scope list_scope.
    the name map's set of inner names) and the place the path is used from: the emitted path resolves to the symbol *)
 Theorem C04_emitted_path_finds_its_symbol :
   forall (is_ns : list string -> bool) (has : list string -> string -> bool) (inner : string -> bool)
-         (frames : list (string -> bool)) (u t : list string) (leaf : string),
+         (live : list string -> bool),
+    (* the namespaces that are written out include every namespace from which namespaces lead to a declaration *)
+    (forall n s r t' leaf', walk is_ns (n :: s) r = Some t' -> has t' leaf' = true -> live (n :: s) = true) ->
+    forall (frames : list (string -> bool)) (u t : list string) (leaf : string),
     ns_ok is_ns t = true -> has t leaf = true ->
     Forall (fun f : string -> bool => forall n, f n = true -> inner n = true) frames ->
-    resolve is_ns has frames u (emit is_ns has inner u t leaf) = Some (Declared t).
+    resolve is_ns has frames u (emit is_ns has inner live u t leaf) = Some (Declared t).
 Proof. exact emitted_path_resolves. Qed.
 
 (* the anchor is needed: without it (the exporters before the repair) a nearer declaration captures the path.
@@ -35,8 +38,8 @@ Definition ex_has (p : list string) (n : string) : bool :=
 Example C04_relative_path_is_captured :
   resolve ex_is_ns ex_has [] ["Q"] (emit_relative [] "f") = Some (Declared ["Q"]) /\
   resolve ex_is_ns ex_has [fun n => String.eqb n "v"] [] (emit_relative [] "v") = Some Local /\
-  resolve ex_is_ns ex_has [] ["Q"] (emit ex_is_ns ex_has (fun n => String.eqb n "v") ["Q"] [] "f") = Some (Declared []) /\
-  resolve ex_is_ns ex_has [fun n => String.eqb n "v"] [] (emit ex_is_ns ex_has (fun n => String.eqb n "v") [] [] "v") = Some (Declared []).
+  resolve ex_is_ns ex_has [] ["Q"] (emit ex_is_ns ex_has (fun n => String.eqb n "v") ex_is_ns ["Q"] [] "f") = Some (Declared []) /\
+  resolve ex_is_ns ex_has [fun n => String.eqb n "v"] [] (emit ex_is_ns ex_has (fun n => String.eqb n "v") ex_is_ns [] [] "v") = Some (Declared []).
 Proof. vm_compute. repeat split. Qed.
 
 (* the name map of the emitted program: every symbol of a scope keeps the name the first compilation gave it, nothing
